@@ -9,7 +9,7 @@ ASSUMPTIONS = ["pairwise distinct genomes and floor(n*truncation) >= 1 (the prop
 
 
 def run(ctx):
-    r = nbc_direct.run_direct(ctx, ctx.n(420, 20000), "C15-direct")
+    r = nbc_direct.run_direct(ctx, ctx.n(420, 6000), "C15-direct")
     return {"evaluations": r["evaluations"], "distinct_nontrivial": r["distinct_nontrivial"], "traces_validated_against_impl": r["validated"],
             "rule": "populations of 2-40 pairwise distinct genomes in 1-5 dimensions: uniform, clustered, integer lattices (exact distance ties), 1/16 grids (exact metamorphic transformations), "
                     "converged to 1e-9..1e-15 (near-duplicate genomes), tied fitness; both directions; factors 0.5-3; truncation 0.3-1; non-trivial = more than one seed returned",
